@@ -240,7 +240,7 @@ def reachability(history):
 
 
 # ---------------------------------------------------------------- loader names
-LOADER_ALPHA = ["/", ".", "..", ":", " ", "a", "\n", "\0", "_sandbox_phase1", "mw", "~", "\\"]
+LOADER_ALPHA = ["/", ".", "..", ":", " ", "a", "\n", "\0", "\x01", "_sandbox_phase1", "mw", "~", "\\"]
 
 
 def loader_chunk(prefix, length):
@@ -254,7 +254,18 @@ def loader_chunk(prefix, length):
             opened.append(args[0] if isinstance(args[0], str) else args[0].decode("utf-8", "replace"))
 
     sys.addaudithook(hook)
+    import pathlib
+
+    checked = []
+    orig_is_file = pathlib.Path.is_file
+
+    def rec_is_file(self, *a, **k):
+        checked.append(str(self))
+        return orig_is_file(self, *a, **k)
+
+    pathlib.Path.is_file = rec_is_file
     lua_dir = os.path.realpath(str(luaexec.LUA_DIR))
+    lua_dir_norm = os.path.normpath(str(luaexec.LUA_DIR))
     canary_dir = scratch_dir("c06canary")
     with open(os.path.join(canary_dir, "x.lua"), "w") as f:
         f.write("return 'CANARY'")
@@ -265,6 +276,7 @@ def loader_chunk(prefix, length):
     names = ("".join(prefix + r) for r in itertools.product(LOADER_ALPHA, repeat=length - len(prefix)))
     for name in itertools.chain(names, extra if not prefix else []):
         del opened[:]
+        del checked[:]
         try:
             data = luaexec.lua_loader(ctx, name)
         except Exception as e:
@@ -275,8 +287,13 @@ def loader_chunk(prefix, length):
             rp = os.path.realpath(p)
             if p.endswith(".lua") and not rp.startswith(lua_dir + os.sep):
                 out.append(("loader_stays_in_lua_dir", {"module_name": name}, rp, "a path under " + lua_dir))
+        for p in checked:
+            np_ = os.path.normpath(p)
+            if not (np_ + os.sep).startswith(lua_dir_norm + os.sep):
+                out.append(("loader_stays_in_lua_dir", {"module_name": name}, "candidate path " + np_, "a path under " + lua_dir_norm))
         if data is not None and "CANARY" in data:
             out.append(("loader_stays_in_lua_dir", {"module_name": name}, "read the canary file", "not readable"))
+    pathlib.Path.is_file = orig_is_file
     close_ctx(ctx)
     return out, n
 
